@@ -31,3 +31,24 @@ def stepTcpStream (toks : List String) : Option String :=
   | _ => none
 
 end NV
+
+namespace NV
+/-- `staleq <doh|dns53> <udp|tcp> <k> <payload>`: the same query asked k times through the whole daemon with the cache on,
+the upstream answering the i-th request with one TTL-0 record carrying the serial i.  A stored answer with TTL 0 is never
+fresh (`NV.C06.served_only_fresh_*`, `stale_refetch_*`): every query goes upstream — as the client's bytes (the query has
+no option to rewrite) — and is answered with that request's answer (`NV.C01.upstream_when_ok`; the answers are far below
+every UDP limit). -/
+def stepStaleQ (toks : List String) : Option String :=
+  match toks with
+  | ["staleq", tr, proto, ks, h] =>
+    match ks.toNat?, ofHex h with
+    | some k, some p =>
+      if k = 0 ∨ k > 8 ∨ p.length < 17 ∨ (tr ≠ "doh" ∧ tr ≠ "dns53") ∨ (proto ≠ "udp" ∧ proto ≠ "tcp") then some "bad-op" else
+      let answer (i : Nat) : Bytes :=
+        p.take 2 ++ [0x81, 0x80, 0, 1, 0, 1, 0, 0, 0, 0] ++ p.drop 12 ++
+          [0xc0, 0x0c, 0, 1, 0, 1, 0, 0, 0, 0, 0, 4, 10, 0, UInt8.ofNat (i / 256), UInt8.ofNat (i % 256)]
+      let is := (List.range k).map (· + 1)
+      some s!"r={",".intercalate (is.map fun i => toHex (answer i))} up={",".intercalate (is.map fun _ => toHex p)}"
+    | _, _ => some "bad-op"
+  | _ => none
+end NV
